@@ -472,6 +472,37 @@ def cmp_canon(d, op):
     return (pkey(d), op)
 
 
+def align_cmp(key, op, bits):
+    """`key op 0` restated over symbol lengths for aligned content: every atom bitlen(bits(x)) is bits * L(x) when x holds a whole
+    number of `bits`-wide symbols (invariant I-align, established at every constructor for typed input).  After the substitution an
+    Eq/Ne comparison whose coefficients all share a factor is divided by it (4*L(a) - 4*L(b) != 0 is L(a) - L(b) != 0;
+    2*L(x) - 6 == 0 is L(x) - 3 == 0).  Comparisons without such an atom are returned unchanged."""
+    from math import gcd
+    d, hit = {}, False
+    for m, c in key:
+        k = 1
+        mm = []
+        for a in m:
+            if isinstance(a, tuple) and a[0] == "bitlen" and isinstance(a[1], tuple) and a[1][0] == "bits":
+                mm.append(("L", a[1][1]))
+                k *= bits
+                hit = True
+            else:
+                mm.append(a)
+        mm = tuple(sorted(mm, key=_atom_key))
+        d[mm] = d.get(mm, 0) + c * k
+    if not hit:
+        return (key, op)
+    d = {m: c for m, c in d.items() if c}
+    if op in ("Eq", "Ne") and d:
+        g = 0
+        for c in d.values():
+            g = gcd(g, abs(c))
+        if g > 1:
+            d = {m: c // g for m, c in d.items()}
+    return cmp_canon(d, op)
+
+
 def cmp_nf(t, truth=True):
     """Canonical form of comparison term t (already normalised) being `truth`, or None if t is not a comparison."""
     if not (isinstance(t, tuple) and t[0] == "bin" and t[1] in FLIP):
